@@ -95,6 +95,7 @@ type FuncVC struct {
 	lockHeld map[string]bool
 	dry      dryInfo
 	lastSpecResults []Val
+	copyOuts        []func() // pending copy-outs of receiver cells (see evalArgs)
 	storeLog []storeRec
 	softNotes []string
 	pureMode int
@@ -377,6 +378,7 @@ func (fv *FuncVC) allocFact(st *State, v Val, depth int) {
 	case SRef:
 		al := fv.getHeap(st, "alloc")
 		fv.addFact(st, mkOr(mkEq(v.T, "nil"), sx("select", al, v.T)))
+		fv.dynTypeFact(st, v)
 	case SSlice:
 		al := fv.getHeap(st, "alloc")
 		fv.addFact(st, mkAnd(sx(">=", sx("sl_len", v.T), "0"),
